@@ -125,6 +125,16 @@ register("C06", "other",
          TB + "PV.IC10 / PV.Src are trusted specifications; call discipline of real outputs is monitored, not proved.",
          "Lean 4 proofs (machine call/return lemmas, ra-bracket shape) + model/code correspondence + shadow-call-stack execution of real outputs", "DESIGN.md §4 C06")
 
+register("C02", "other",
+         "Partial. Proved in Lean (corollaries of the model theorems of C05/C08/C09/C15): text appended after blanks and '#' is invisible to the loader (all comment options), every symbolic token denotes the same "
+         "number in compact and verbose mode, a removed label is replaced by the index of the instruction that follows it, and options given by '# pytrapic:' comments equal options given through the API. "
+         "For inline_functions, tail_call_optimization and use_push_pop_functions — different lowerings of the same source — there is no theorem about the real generator: each generated source is compiled by "
+         "the real transpiler under several random option vectors (API and pragma route) and every output is run against the Lean reference semantics with the shadow call stack, so all outputs of one source "
+         "behave alike; a family with suffix-related function names is compared pairwise across vectors. All 2^8 vectors are used on profiles without functions / with parameterless procedures; profiles with "
+         "parameters, results or unsafe tail positions fix the options for which the pinned tree has known findings (F-C01-a, F-C02-a/b/c, F-C04-b/c).",
+         TB + "PV.Src / PV.IC10 are trusted specifications; the lowering options are explored by differential execution, not proved.",
+         "Lean 4 corollaries for the textual options + differential execution of real outputs under option vectors against a Lean reference semantics", "DESIGN.md §4 C02")
+
 ALL = [f"C{i:02d}" for i in range(1, 19)]
 
 
